@@ -34,6 +34,64 @@ pub fn mutants<B: Backend>(purpose: Purp, tok: &str, msg_len: usize, aad: &[u8],
             push("bitflip-footer", &body, &f, aad);
         }
     }
+    // 1b. two-bit corruptions of the tag / signature: the same bit flipped in two different bytes
+    //     (a comparison that folds differences with XOR, or compares word-wise, cancels these), and
+    //     permutations of the tag's 8-byte words
+    {
+        let tail_len = match purpose {
+            Purp::Local => B::LOCAL_TAG,
+            Purp::Public => B::SIG,
+        };
+        if body.len() >= tail_len {
+            let start = body.len() - tail_len;
+            // public-key signatures are expensive to verify: restrict the bit positions there
+            let bits: &[u8] = if purpose == Purp::Public && B::SIG > 64 { &[0, 7] } else if purpose == Purp::Public { &[0, 3, 7] } else { &[0, 1, 2, 3, 4, 5, 6, 7] };
+            let stride = if purpose == Purp::Public && B::SIG > 96 { 8 } else { 1 };
+            for i in (0..tail_len).step_by(stride) {
+                for j in (i + 1)..tail_len {
+                    if purpose == Purp::Public && (j - i) % 8 != 0 {
+                        continue; // word-aligned pairs only for signatures
+                    }
+                    for &bit in bits {
+                        let mut b = body.clone();
+                        b[start + i] ^= 1 << bit;
+                        b[start + j] ^= 1 << bit;
+                        push("bitflip-pair-tag", &b, &footer, aad);
+                    }
+                }
+            }
+            if tail_len % 8 == 0 {
+                let words = tail_len / 8;
+                for (a, c) in [(0usize, 1usize), (0, words - 1), (1, 2 % words)] {
+                    if a != c {
+                        let mut b = body.clone();
+                        for k in 0..8 {
+                            b.swap(start + a * 8 + k, start + c * 8 + k);
+                        }
+                        push("tag-words-swapped", &b, &footer, aad);
+                    }
+                }
+                let mut b = body.clone();
+                b[start..].reverse();
+                push("tag-reversed", &b, &footer, aad);
+            }
+            // Ed25519: the non-canonical twin S + L of the signature scalar
+            if purpose == Purp::Public && B::SIG == 64 {
+                let l: [u8; 32] = [0xed, 0xd3, 0xf5, 0x5c, 0x1a, 0x63, 0x12, 0x58, 0xd6, 0x9c, 0xf7, 0xa2, 0xde, 0xf9, 0xde, 0x14, 0, 0, 0, 0, 0, 0, 0, 0, 0, 0, 0, 0, 0, 0, 0, 0x10];
+                let mut b = body.clone();
+                let s = &mut b[start + 32..];
+                let mut carry = 0u16;
+                for k in 0..32 {
+                    let v = s[k] as u16 + l[k] as u16 + carry;
+                    s[k] = v as u8;
+                    carry = v >> 8;
+                }
+                if carry == 0 {
+                    push("ed25519-s-plus-l", &b, &footer, aad);
+                }
+            }
+        }
+    }
     // 2. footer / assertion added, removed, replaced
     if footer.is_empty() {
         push("footer-added", &body, b"x", aad);
@@ -260,6 +318,53 @@ fn relabel<A: Backend, B: Backend>(opts: &Opts, rep: &mut Report) {
 }
 
 /// local <-> public relabel inside one backend, with a length-confusable key where one exists
+/// the payload-encoding suffix is part of the header: a token of a suffixed payload type relabelled
+/// to the plain header (and vice versa) must be rejected
+fn relabel_suffix<B: Backend>(opts: &Opts, rep: &mut Report) {
+    if opts.shard != 0 {
+        return;
+    }
+    let mut rng = Rng::derive(opts.seed, "c02.relabel-suffix", B::VER as u64);
+    for p in [Purp::Local, Purp::Public] {
+        let kp = KeyPair::<B>::gen_for(p, &mut rng);
+        for len in [0usize, 9, 70] {
+            let msg = rng.bytes(len);
+            for footer in [&b""[..], &b"f"[..]] {
+                for aad in if B::HAS_AAD { vec![&b""[..], &b"a"[..]] } else { vec![&b""[..]] } {
+                    let class = "header-relabel-payload-suffix";
+                    let label = format!("{}.{}.{class}", B::NAME, p.name());
+                    if let Ok(tx) = kp.seal_x(None, &msg, footer, aad) {
+                        // positive control
+                        if !matches!(kp.open_x(&tx, aad), Ok((m, _)) if m == msg) {
+                            rep.inconclusive(&format!("{} {}: suffixed positive control failed", B::NAME, p.name()));
+                            continue;
+                        }
+                        let (_, body, f) = split_token(&tx);
+                        let plain = join_token(&kp.header(), &body, &f);
+                        match guard(|| kp.open(&plain, aad)) {
+                            Ok(Err(e)) => rep.count(&format!("err.{}", err_kind(&e))),
+                            Ok(Ok(_)) => rep.violation(&format!("C02|{}|{}|accepted:{class}", B::NAME, p.name()), json!({"sealed_as": tx, "accepted_as": plain})),
+                            Err(pn) => rep.violation(&format!("C02|{}|{}|panic:{class}", B::NAME, p.name()), json!({"panic": pn})),
+                        }
+                        rep.case(&label, fnv(plain.as_bytes()), true);
+                    }
+                    if let Ok(t) = kp.seal(&msg, footer, aad) {
+                        let (_, body, f) = split_token(&t);
+                        let suffixed = join_token(&kp.header_x(), &body, &f);
+                        match guard(|| kp.open_x(&suffixed, aad)) {
+                            Ok(Err(e)) => rep.count(&format!("err.{}", err_kind(&e))),
+                            Ok(Ok(_)) => rep.violation(&format!("C02|{}|{}|accepted:{class}", B::NAME, p.name()), json!({"sealed_as": t, "accepted_as": suffixed})),
+                            Err(pn) => rep.violation(&format!("C02|{}|{}|panic:{class}", B::NAME, p.name()), json!({"panic": pn})),
+                        }
+                        rep.case(&label, fnv(suffixed.as_bytes()), true);
+                        rep.sample_class(&label, 1, || json!({"backend": B::NAME, "purpose": p.name(), "class": class, "sealed_as": t.chars().take(80).collect::<String>(), "offered_as": suffixed.chars().take(80).collect::<String>(), "result": "Err"}));
+                    }
+                }
+            }
+        }
+    }
+}
+
 fn relabel_purpose<B: Backend>(opts: &Opts, rep: &mut Report) {
     if opts.shard != 0 {
         return;
@@ -407,6 +512,7 @@ pub fn run(opts: &Opts) {
     for_backends!(opts, backend, opts, &mut rep);
     for_backends!(opts, typed_footers, opts, &mut rep);
     for_backends!(opts, relabel_purpose, opts, &mut rep);
+    for_backends!(opts, relabel_suffix, opts, &mut rep);
     macro_rules! pairs {
         ($($a:ty => $b:ty),* $(,)?) => { $( relabel::<$a, $b>(opts, &mut rep); )* };
     }
